@@ -223,6 +223,11 @@ def explore(ctx):
                 if not approx_same(exact, got, tol + Fr(1, 10) + Fr(npts, 150)):
                     ctx.spec_failure(dict(case, glyph=name), "compiled outline of %r moved by more than roundTolerance %s from the "
                                      "resolved source outline" % (name, tol))
+            elif [geom.cyc_canon(s) for s in ref] != [geom.cyc_canon(s) for s in got] and kw["optimizeCFF"] >= 1 and \
+                    [geom.cyc_canon(geom.merge_axis_lines(s)) for s in ref] == [geom.cyc_canon(geom.merge_axis_lines(s)) for s in got]:
+                # same outline; the specialiser folded a straight axis-parallel run of two lines into one (observation O7)
+                ctx.klass("collinear_axis_run_merged_by_specialiser")
+                continue
             elif [geom.cyc_canon(s) for s in ref] != [geom.cyc_canon(s) for s in got]:
                 ctx.spec_failure(dict(case, glyph=name), "compiled outline of %r differs from the rounded resolved source outline "
                                  "(segment-level reference): got %r want %r" % (name, jsonable(got)[:3], jsonable(ref)[:3]))
